@@ -59,6 +59,9 @@ type c16Node struct {
 	Impl string    `json:"impl,omitempty"` // comp: lambda | model | retriever
 	Dag  bool      `json:"dag,omitempty"`  // graph: compiled with AllPredecessor trigger mode
 	Ch   []c16Node `json:"ch,omitempty"`
+	// comp / graph: the node is added with WithInputKey / WithOutputKey (c16_keys.go)
+	InKey  string `json:"inKey,omitempty"`
+	OutKey string `json:"outKey,omitempty"`
 }
 
 type c16Opt struct {
@@ -72,7 +75,7 @@ type c16Opt struct {
 type c16Call struct {
 	G        []c16Node `json:"g"`
 	Ixs      []int     `json:"ixs"`
-	Paradigm string    `json:"paradigm,omitempty"` // invoke | stream
+	Paradigm string    `json:"paradigm,omitempty"` // invoke | stream | collect | transform
 	Dag      bool      `json:"dag,omitempty"`
 }
 
@@ -226,17 +229,9 @@ const (
 	c16OutStr  = 2 // next node is a retriever
 )
 
-func c16Output(kind int) any {
-	switch kind {
-	case c16OutMsgs:
-		return []*schema.Message{schema.UserMessage("q")}
-	case c16OutStr:
-		return "q"
-	}
-	return "v"
-}
+func c16Output(s c16Spec) any { return c16Value(s) }
 
-func c16Lambda(ty int, path string, out int) *compose.Lambda {
+func c16Lambda(ty int, path string, out c16Spec) *compose.Lambda {
 	switch ty {
 	case c16TyA:
 		return compose.InvokableLambdaWithOption(func(ctx context.Context, in any, opts ...c16OptA) (any, error) {
@@ -385,50 +380,46 @@ func c16PathName(pre []string, key string) string {
 	return strings.Join(append(append([]string{}, pre...), key), "/")
 }
 
-func c16NeedOf(n *c16Node) int {
-	if n != nil && n.K == "comp" {
-		switch n.Impl {
-		case "model":
-			return c16OutMsgs
-		case "retriever":
-			return c16OutStr
-		}
-	}
-	return c16OutAny
-}
-
-func c16BuildGraph(nodes []c16Node, pre []string) (*compose.Graph[any, any], error) {
+// c16BuildGraph builds one level of the tree; `after` is what the value leaving the level's last
+// node must be (c16Flow tells every lambda what to return).
+func c16BuildGraph(nodes []c16Node, pre []string, after c16Spec) (*compose.Graph[any, any], error) {
 	g := compose.NewGraph[any, any]()
 	prev := compose.START
+	outs, _, flowOK := c16Flow(nodes, after)
+	if !flowOK {
+		return nil, fmt.Errorf("harness: the input / output keys below %v do not fit", pre)
+	}
 	for i := range nodes {
 		n := &nodes[i]
 		name := c16PathName(pre, n.Key)
-		var next *c16Node
-		if i+1 < len(nodes) {
-			next = &nodes[i+1]
+		nodeOpts := []compose.GraphAddNodeOpt{compose.WithNodeName(name)}
+		if n.InKey != "" {
+			nodeOpts = append(nodeOpts, compose.WithInputKey(n.InKey))
+		}
+		if n.OutKey != "" {
+			nodeOpts = append(nodeOpts, compose.WithOutputKey(n.OutKey))
 		}
 		var err error
 		switch n.K {
 		case "pass":
-			err = g.AddPassthroughNode(n.Key, compose.WithNodeName(name))
+			err = g.AddPassthroughNode(n.Key, nodeOpts...)
 		case "graph":
 			var sub *compose.Graph[any, any]
-			sub, err = c16BuildGraph(n.Ch, append(append([]string{}, pre...), n.Key))
+			sub, err = c16BuildGraph(n.Ch, append(append([]string{}, pre...), n.Key), outs[i])
 			if err == nil {
-				opts := []compose.GraphAddNodeOpt{compose.WithNodeName(name)}
 				if n.Dag {
-					opts = append(opts, compose.WithGraphCompileOptions(compose.WithNodeTriggerMode(compose.AllPredecessor)))
+					nodeOpts = append(nodeOpts, compose.WithGraphCompileOptions(compose.WithNodeTriggerMode(compose.AllPredecessor)))
 				}
-				err = g.AddGraphNode(n.Key, sub, opts...)
+				err = g.AddGraphNode(n.Key, sub, nodeOpts...)
 			}
 		default:
 			switch n.Impl {
 			case "model":
-				err = g.AddChatModelNode(n.Key, &c16Model{path: name}, compose.WithNodeName(name))
+				err = g.AddChatModelNode(n.Key, &c16Model{path: name}, nodeOpts...)
 			case "retriever":
-				err = g.AddRetrieverNode(n.Key, &c16Retriever{path: name}, compose.WithNodeName(name))
+				err = g.AddRetrieverNode(n.Key, &c16Retriever{path: name}, nodeOpts...)
 			default:
-				err = g.AddLambdaNode(n.Key, c16Lambda(n.Ty, name, c16NeedOf(next)), compose.WithNodeName(name))
+				err = g.AddLambdaNode(n.Key, c16Lambda(n.Ty, name, outs[i]), nodeOpts...)
 			}
 		}
 		if err != nil {
@@ -446,7 +437,7 @@ func c16BuildGraph(nodes []c16Node, pre []string) (*compose.Graph[any, any], err
 }
 
 func c16Compile(call *c16Call) (compose.Runnable[any, any], error) {
-	g, err := c16BuildGraph(call.G, nil)
+	g, err := c16BuildGraph(call.G, nil, c16SpecAny)
 	if err != nil {
 		return nil, err
 	}
@@ -620,24 +611,35 @@ func c16CallOnce(r compose.Runnable[any, any], call *c16Call, opts []compose.Opt
 	finished := false
 	panicked, pv := vh.Safely(func() {
 		finished = vh.WithTimeout(20*time.Second, func() {
-			if call.Paradigm == "stream" {
-				var sr *schema.StreamReader[any]
-				sr, runErr = r.Stream(ctx, "in", opts...)
-				if runErr == nil {
-					for {
-						_, e := sr.Recv()
-						if e == io.EOF {
-							break
-						}
-						if e != nil {
-							runErr = e
-							break
-						}
+			in := c16Input(call.G)
+			drain := func(sr *schema.StreamReader[any]) {
+				for {
+					_, e := sr.Recv()
+					if e == io.EOF {
+						break
 					}
-					sr.Close()
+					if e != nil {
+						runErr = e
+						break
+					}
 				}
-			} else {
-				_, runErr = r.Invoke(ctx, "in", opts...)
+				sr.Close()
+			}
+			switch call.Paradigm {
+			case "stream":
+				var sr *schema.StreamReader[any]
+				if sr, runErr = r.Stream(ctx, in, opts...); runErr == nil {
+					drain(sr)
+				}
+			case "collect":
+				_, runErr = r.Collect(ctx, schema.StreamReaderFromArray([]any{in}), opts...)
+			case "transform":
+				var sr *schema.StreamReader[any]
+				if sr, runErr = r.Transform(ctx, schema.StreamReaderFromArray([]any{in}), opts...); runErr == nil {
+					drain(sr)
+				}
+			default:
+				_, runErr = r.Invoke(ctx, in, opts...)
 			}
 		})
 	})
@@ -1033,6 +1035,8 @@ func c16Stats(ctx *vh.Ctx, c *c16Case, agree bool) {
 	for i := range c.Calls {
 		walk(c.Calls[i].G, 1)
 		ctx.Res.Dist("paradigm=" + c.Calls[i].Paradigm)
+		kin, kout := c16HasKeys(c.Calls[i].G)
+		ctx.Res.Dist(fmt.Sprintf("keys.in=%v/out=%v/%s", kin, kout, c.Calls[i].Paradigm))
 	}
 	ctx.Res.Dist(fmt.Sprintf("depth=%d", depth))
 	ctx.Res.Dist(fmt.Sprintf("calls=%d/%s", len(c.Calls), c.Mode))
@@ -1128,6 +1132,12 @@ func c16ShapeKey(c *c16Case, model *c16Out) string {
 			if ns[i].K == "comp" {
 				fmt.Fprintf(&sb, "%d", ns[i].Ty)
 			}
+			if ns[i].InKey != "" {
+				sb.WriteByte('<')
+			}
+			if ns[i].OutKey != "" {
+				sb.WriteByte('>')
+			}
 			if ns[i].K == "graph" {
 				walk(ns[i].Ch)
 			}
@@ -1137,6 +1147,9 @@ func c16ShapeKey(c *c16Case, model *c16Out) string {
 	for i := range c.Calls {
 		walk(c.Calls[i].G)
 		fmt.Fprintf(&sb, "%v", c.Calls[i].Ixs)
+		if p := c.Calls[i].Paradigm; p != "" && p != "invoke" {
+			sb.WriteString(p[:1])
+		}
 	}
 	for i := range c.Build {
 		fmt.Fprintf(&sb, "<%s%d>", c.Build[i].Op[:1], c.Build[i].Src)
@@ -1212,7 +1225,7 @@ func c16One(ctx *vh.Ctx, c *c16Case, shrink bool) error {
 }
 
 func runC16(ctx *vh.Ctx) error {
-	ctx.Res.Rule = "random chains of nested graphs (depth<=3; lambdas with 7 concrete option types incl. model.Option/retriever.Option, lambdas whose declared option type is an interface type (any, a small custom interface implemented by one of the concrete types), lambdas without option, fake ChatModel/Retriever components, passthrough nodes, reused keys across levels) x 0-5 Options (built in one step, or by sequences of DesignateNode/DesignateNodeWithPath calls deriving several Options from shared bases; undesignated / designated by DesignateNode or DesignateNodeWithPath with 1-3 paths; values or callbacks or empty; valid targets, wrong type, unknown node, path below component/passthrough, empty path) x Invoke/Stream x pregel/dag; single calls, sequences of calls and concurrent calls sharing the same Option values; non-trivial = some node receives a value or a handler, or the call is rejected; distinct by (tree shape with types, option kinds and paths, call index sets)"
+	ctx.Res.Rule = "random chains of nested graphs (depth<=3; lambdas with 7 concrete option types incl. model.Option/retriever.Option, lambdas whose declared option type is an interface type (any, a small custom interface implemented by one of the concrete types), lambdas without option, fake ChatModel/Retriever components, passthrough nodes, reused keys across levels) x 0-5 Options (built in one step, or by sequences of DesignateNode/DesignateNodeWithPath calls deriving several Options from shared bases; undesignated / designated by DesignateNode or DesignateNodeWithPath with 1-3 paths; values or callbacks or empty; valid targets, wrong type, unknown node, path below component/passthrough, empty path) x nodes (lambdas, components, nested graphs) added with WithInputKey / WithOutputKey behind a predecessor that yields the map x Invoke/Stream/Collect/Transform x pregel/dag; single calls, sequences of calls and concurrent calls sharing the same Option values; non-trivial = some node receives a value or a handler, or the call is rejected; distinct by (tree shape with types and keys, option kinds and paths, call index sets, paradigm)"
 	if err := c16CheckTypeMenu(); err != nil {
 		return err
 	}
@@ -1231,10 +1244,13 @@ func runC16(ctx *vh.Ctx) error {
 	n := ctx.N(2500, 60000)
 	for i := 0; i < n && ctx.TimeLeft(); i++ {
 		var c *c16Case
-		if ctx.Rng.Chance(22) {
+		switch w := ctx.Rng.Intn(100); {
+		case w < 20:
 			c = c16GenIface(ctx.Rng)
-		} else {
-			c = c16Gen(ctx.Rng)
+		case w < 42:
+			c = c16Gen(ctx.Rng, true)
+		default:
+			c = c16Gen(ctx.Rng, false)
 		}
 		if err := c16One(ctx, c, true); err != nil {
 			return err
